@@ -2,3 +2,4 @@ import Omaha.Basic.Bytes
 import Omaha.Version
 import Omaha.Time
 import Omaha.Cup
+import Omaha.Request
